@@ -261,7 +261,7 @@ impl LineAttrs {
                     e.style = "-".into();
                 }
             }
-            CellStyle { .. } | Restart => {}
+            _ => {}
         }
     }
 
@@ -809,4 +809,44 @@ pub fn line_event(rng: &mut Rng, w: &World, _p: &Profile, styles: bool) -> Optio
         _ => Ev::Restart { dirty: false },
     };
     Some((ev, None))
+}
+
+
+/// Model-level operations on the bare node (C27): sheets by explicit name (with names that
+/// differ only in the case of a non-ASCII letter), typed inputs, structural edits.
+pub fn model_event(rng: &mut Rng, w: &World, p: &Profile) -> Option<(Ev, Option<String>)> {
+    let m = w.bare.as_ref()?;
+    let n = m.workbook.worksheets.len() as u32;
+    let sheet = rng.below(n.max(1) as u64) as u32;
+    const NAMES: [&str; 14] = ["Data", "DATA", "Año", "AÑO", "año", "über", "ÜBER", "Straße", "STRASSE", "Élan", "élan", "Σ", "σ", "My Sheet"];
+    let existing: Vec<String> = m.workbook.worksheets.iter().map(|s| s.get_name()).collect();
+    // half of the time a name is derived from an existing one by changing case
+    let name = if rng.chance(0.5) && !existing.is_empty() {
+        let e = rng.pick(&existing).clone();
+        match rng.below(3) {
+            0 => e.to_uppercase(),
+            1 => e.to_lowercase(),
+            _ => e,
+        }
+    } else {
+        rng.pick(&NAMES).to_string()
+    };
+    let row = rng.range(1, 12) as i32;
+    let col = rng.range(1, 8) as i32;
+    let k = rng.range(1, 3) as i32;
+    let loc = gen::Loc::new(w.primary.lang, &m.workbook.settings.locale);
+    let op = match rng.weighted(&[14, 8, 12, 6, 30, 5, 5, 5, 5, 5, 5]) {
+        0 => BareOp::AddSheet { name },
+        1 => BareOp::InsertSheet { name, index: rng.below(n as u64 + 1) as u32 },
+        2 => BareOp::RenameSheet { index: sheet, name },
+        3 => BareOp::DeleteSheet { index: sheet },
+        4 => BareOp::Input { sheet, row, col, text: gen::value_text(rng, &loc, p) },
+        5 => BareOp::InsertRows { sheet, row, n: k },
+        6 => BareOp::InsertCols { sheet, col, n: k },
+        7 => BareOp::DeleteRows { sheet, row, n: k },
+        8 => BareOp::DeleteCols { sheet, col, n: k },
+        9 => BareOp::MoveRows { sheet, row, n: 1, delta: rng.range(-3, 3) as i32 },
+        _ => BareOp::MoveCols { sheet, col, n: 1, delta: rng.range(-3, 3) as i32 },
+    };
+    Some((Ev::Bare { op }, None))
 }
